@@ -326,11 +326,17 @@ def run_assignment(asg, forms, fam='R'):
             st, val = attempt(f)
             rec(form, enforce, op, None, None if st == 'refused' else '%s on a public key did not refuse with PGPError (%s: %s)' % (op, st, str(val)[:60]))
 
+    before_priv, before_pub = bytes(k), bytes(pub)
     for enforce in (True, False):
         if 'public' in forms:
             public_ops('public', pub, enforce)
         if 'private' in forms:
             private_ops('private', k, enforce, True)
+    # signing, certifying someone else, encrypting, decrypting - performed or refused - leave the key itself as it was
+    k._require_usage_flags = pub._require_usage_flags = True
+    if bytes(k) != before_priv or bytes(pub) != before_pub:
+        rec('any', True, 'all-operations', None, 'the operations (performed or refused) changed the key: private export %s, public export %s'
+            % ('differs' if bytes(k) != before_priv else 'same', 'differs' if bytes(pub) != before_pub else 'same'), kind='key-untouched')
     if 'sublocked' in forms and asg['subs']:
         # only the component that the policy selects for signing is locked (mixed protection): a locked key for that operation
         exp = subj.expected('sign')
